@@ -101,9 +101,9 @@ def load_known(path=None):
         line = line.strip()
         if not line or line.startswith("#"):
             continue
-        m = re.match(r"^finding:\s+property=(\S+)\s+key=(\S+)\s+(.*)$", line)
+        m = re.match(r'^finding:\s+property=(\S+)\s+key=(?:"([^"]+)"|(\S+))\s+(.*)$', line)
         if m:
-            findings[(m.group(1), m.group(2))] = m.group(3)
+            findings[(m.group(1), m.group(2) or m.group(3))] = m.group(4)    # keys that contain spaces (`<T as Trait>::f`) are quoted
             continue
         m = re.match(r"^fixed:\s+property=(\S+)\s+(\S+)\s+(.*)$", line)
         if m:
